@@ -370,18 +370,29 @@ def check_disk(rows, df):
     return None
 
 
-def tracked(values):
-    """the convention of MetricsStatistics: a metric is tracked while its values are numbers;
-    values after the first non-number are ignored.  Returns (tracked values, mixed?)"""
-    out = []
-    for i, v in enumerate(values):
-        if not isinstance(plain(v), numbers.Number):
-            return out, any(isinstance(plain(w), numbers.Number) for w in values[i:]) or bool(out)
-        out.append(plain(v))
-    return out, False
+def tracked(values, conv="first"):
+    """Which values of a metric MetricsStatistics counts (per trial / overall), and whether numbers and
+    non-numbers are mixed.
+    conv="first" (the documented rule, /repo after the repair of F-C17-3): the type of the first value defines the
+      metric: first value a number -> ALL numbers count (non-numbers in between are skipped); otherwise nothing.
+    conv="latch" (behaviour before the repair, only used to classify a failure): the numbers before the first
+      non-number."""
+    vals = [plain(v) for v in values]
+    isnum = [isinstance(v, numbers.Number) for v in vals]
+    mixed = any(isnum) and not all(isnum)
+    if conv == "latch":
+        out = []
+        for v, n in zip(vals, isnum):
+            if not n:
+                break
+            out.append(v)
+        return out, mixed
+    if not vals or not isnum[0]:
+        return [], mixed
+    return [v for v, n in zip(vals, isnum) if n], mixed
 
 
-def expected_stats(results):
+def expected_stats(results, conv="first"):
     keys = []
     for r in results:
         for k in r:
@@ -389,7 +400,7 @@ def expected_stats(results):
                 keys.append(k)
     exp = dict(count=len(results), min={}, max={}, sum={}, mixed=set())
     for k in keys:
-        vals, mixed = tracked([r[k] for r in results if k in r])
+        vals, mixed = tracked([r[k] for r in results if k in r], conv)
         if mixed:
             exp["mixed"].add(k)
         if not vals:
@@ -408,8 +419,8 @@ def stats_obs(ms):
     return dict(count=int(ms.count), min=dict(ms.min_metrics), max=dict(ms.max_metrics), sum=dict(ms.sum_metrics))
 
 
-def check_one_stats(who, results, obs):
-    exp = expected_stats(results)
+def check_one_stats(who, results, obs, conv="first"):
+    exp = expected_stats(results, conv)
     if obs["count"] != exp["count"]:
         return "%s: count %d for %d results handed to the loop" % (who, obs["count"], exp["count"])
     for name in ("min", "max", "sum"):
@@ -432,9 +443,9 @@ def check_one_stats(who, results, obs):
     return None
 
 
-def check_stats(handed, overall, per_trial):
+def check_stats(handed, overall, per_trial, conv="first"):
     """handed: list of (trial_id, result) in the order handed to the loop"""
-    why = check_one_stats("overall", [r for _, r in handed], overall)
+    why = check_one_stats("overall", [r for _, r in handed], overall, conv)
     if why:
         return why
     tids = []
@@ -444,7 +455,7 @@ def check_stats(handed, overall, per_trial):
     for t in tids:
         if t not in per_trial:
             return "no statistics for trial %r" % t
-        why = check_one_stats("trial %r" % t, [r for tt, r in handed if tt == t], per_trial[t])
+        why = check_one_stats("trial %r" % t, [r for tt, r in handed if tt == t], per_trial[t], conv)
         if why:
             return why
     for t, s in per_trial.items():
@@ -453,19 +464,19 @@ def check_stats(handed, overall, per_trial):
     return None
 
 
-def trial_values(handed, metric):
+def trial_values(handed, metric, conv="first"):
     """per trial: the values of the metric that count (numbers, not NaN, tracked convention)"""
     per = {}
     for t, r in handed:
         per.setdefault(t, [])
         if metric in r:
             per[t].append(r[metric])
-    return {t: [float(v) for v in tracked(vs)[0] if not isnan(v)] for t, vs in per.items()}
+    return {t: [float(v) for v in tracked(vs, conv)[0] if not isnan(v)] for t, vs in per.items()}
 
 
-def check_best_tuner(handed, metric, mode, best):
+def check_best_tuner(handed, metric, mode, best, conv="first"):
     """best = (trial_id, value) as returned by print_best_metric_found / trial of Tuner.best_config"""
-    per = trial_values(handed, metric)
+    per = trial_values(handed, metric, conv)
     allv = [v for vs in per.values() for v in vs]
     if not handed:
         return None if best is None else "a best trial is reported although no result was handed to the loop"
@@ -482,24 +493,6 @@ def check_best_tuner(handed, metric, mode, best):
     if opt not in per.get(t, []):
         return "reported trial %r never attained the optimum %r of %s (%s)" % (t, opt, metric, mode)
     return None
-
-
-def latch_hides_optimum(handed, metric, mode, trial):
-    """The statistics ignore every value of a metric that follows the first non-number of that metric (per trial).
-    True when, because of that, the trial named by Tuner.best_config() did not attain the optimum over ALL numeric
-    (non-NaN) values of the metric handed to the loop."""
-    per = {}
-    for t, r in handed:
-        v = plain(r.get(metric)) if metric in r else None
-        if isinstance(v, numbers.Number) and not isnan(v):
-            per.setdefault(t, []).append(float(v))
-    allv = [v for vs in per.values() for v in vs]
-    if not allv:
-        return False
-    opt = min(allv) if mode == "min" else max(allv)
-    if opt == (INF if mode == "min" else -INF):
-        return False
-    return opt not in per.get(trial, [])
 
 
 def check_best_exp(rows, metric, mode, cfg):
@@ -711,23 +704,31 @@ def property_checks(ctx, case, kind, deliveries, rows, wallclock, df, handed, ov
     why = None if df is SKIP_DISK else check_disk(rows, df)
     if why:
         bad("disk", why)
+    LATCH = "numeric_values_after_non_numeric_ignored"  # F-C17-3: what the code did before its repair
+
+    def bad_or_latch(part, why, ok_under_latch, **sig):
+        """a failure that disappears when only the numbers before the first non-number are counted is the old
+        latch behaviour of MetricsStatistics.add: reported under the signature of F-C17-3"""
+        if ok_under_latch:
+            bad("statistics", "%s [numbers reported after a non-numeric value of the metric are ignored]: %s"
+                % (part, why), defect=LATCH)
+        else:
+            bad(part, why, **sig)
+
     why = check_stats(handed, overall, per_trial)
     if why:
-        bad("statistics", why)
+        bad_or_latch("statistics", why, check_stats(handed, overall, per_trial, "latch") is None)
     for m, b in bq:
         name, md = mode_of(names, mode, m)
         why = check_best_tuner(handed, name, md, b)
         if why:
-            bad("best_tuner", why, mode=md)
+            bad_or_latch("best_tuner", why, check_best_tuner(handed, name, md, b, "latch") is None, mode=md)
     for m, b in tq:
         name, md = mode_of(names, mode, m)
-        why = check_best_tuner(handed, name, md, None if b is None else (b[0], None))
+        bb = None if b is None else (b[0], None)
+        why = check_best_tuner(handed, name, md, bb)
         if why:
-            bad("best_config", why, mode=md)
-        elif b is not None and latch_hides_optimum(handed, name, md, b[0]):
-            bad("statistics", "Tuner.best_config() names trial %r for %s (%s), but a later numeric value of another "
-                "trial is better: values of a metric after its first non-numeric value are ignored by the statistics"
-                % (b[0], name, md), defect="numeric_values_after_non_numeric_ignored")
+            bad_or_latch("best_config", why, check_best_tuner(handed, name, md, bb, "latch") is None, mode=md)
     for m, c in eqs:
         name, md = mode_of(names, mode, m)
         why = check_best_exp(table, name, md, c)
@@ -736,7 +737,9 @@ def property_checks(ctx, case, kind, deliveries, rows, wallclock, df, handed, ov
     for b in summaries:
         name, md = mode_of(names, mode, 0)
         why = check_best_tuner(handed, name, md, b)
-        if why:
+        if why and check_best_tuner(handed, name, md, b, "latch") is None:
+            bad_or_latch("final_summary", why, True)
+        elif why:
             extra = dict(defect="mode_list_read_as_max") if isinstance(mode, list) and md == "min" else {}
             bad("final_summary", "summary printed at the end of Tuner.run(): " + why, mode=md,
                 mode_is_list=isinstance(mode, list), **extra)
@@ -1121,6 +1124,10 @@ def gen_run_spec(rng, idx):
                 chunks=[rng.randint(0, 3) for _ in range(rng.randint(1, 5))], outcomes=outcomes,
                 n_workers=rng.randint(1, 3), seed=rng.randint(0, 10 ** 6), rui=rng.choice([-1, 0, 10.0]),
                 max_results=rng.randint(3, 25), max_loops=rng.randint(10, 60))
+    if kind == "fifo" and k > 1 and rng.random() < 0.5:
+        one = rng.choice(["min", "max"])
+        spec["mode"] = [one] * k
+        spec["ctor_mode"] = rng.choice([one, [one]])
     if kind == "scripted":
         hps = HP_ALL[:rng.randint(1, 3)]
         spec["configs"] = [gen_cfg(rng, hps) for _ in range(rng.randint(1, 6))]
@@ -1138,7 +1145,13 @@ def build_scheduler(spec):
     metric = names[0] if len(names) == 1 else list(names)
     if kind == "fifo":
         space = {"lr": uniform(0.0, 1.0), "bs": randint(1, 64), "opt": choice(["adam", "sgd"])}
-        return FIFOScheduler(space, searcher="random", metric=metric, mode=mode, random_seed=spec["seed"]), None
+        try:
+            return FIFOScheduler(space, searcher="random", metric=metric, mode=spec.get("ctor_mode", mode),
+                                 random_seed=spec["seed"]), None
+        except AssertionError:
+            # fifo.py `[mode * num_objectives]`: one mode for several metrics is rejected ("minmin"); not C17's
+            # business (patches/fifo-mode-list.diff): fall back to the equivalent list
+            return FIFOScheduler(space, searcher="random", metric=metric, mode=mode, random_seed=spec["seed"]), None
     if kind == "hb_stopping":
         space = {"lr": uniform(0.0, 1.0), "bs": randint(1, 64)}
         return HyperbandScheduler(space, type="stopping", searcher="random", metric=metric, mode=mode,
